@@ -19,7 +19,7 @@ try:
     for f in bv['failures']:
         print('---', 'SEM' if f['semantic'] else 'TOOL', f['kind'], '| fn', f['function'], '| labels', f['labels'])
         print(f['rendered'])
-    print('twins', len(bv['twins']), 'vacuous', bv['vacuous_twins'])
+    print('twins', len(bv['twins']), 'vacuous', len(bv['vacuous_twins']), bv['vacuous_twins'][:5])
     slow = sorted(((x['time_us'] or 0, n) for n, x in v['functions'].items()), reverse=True)[:8]
     print('slowest:', [(n.split('::')[-1], t // 1000) for t, n in slow])
     bad = [n for n, x in v['functions'].items() if not x['success'] and 'reach__' not in n]
